@@ -7,20 +7,22 @@ ID = 'C04'
 RULE = ('English: every n below the bound U {10^k, 10^k +/- 1} U the full cross product of per-group digit classes over five 3-digit '
         'groups x {with/without "and"} x {hyphen/space in tens} x {cardinal via the number model, ordinal via the ordinal model} x '
         '{alone, carrier}; Spanish, French, German, Chinese, Japanese: cardinals for every n below the bound U round numbers and '
-        'boundary composites up to 10^12, ordinals zh/ja 第N. Oracle: one entity over the whole phrase with value == str(n). '
+        'boundary composites up to 10^12, ordinals zh/ja 第N; Portuguese n < 1000 and round numbers, Italian and Dutch n < 100. Oracle: one entity over the whole phrase with value == str(n). '
         'Non-trivial = entity found with the right value; distinct = distinct (culture, model, phrase).')
 ASSUMPTIONS = ['numeral grammars are the generators in oracles/numerals.py; every word they emit for a whitespace-separated culture '
                'must be a key of that culture\'s own number maps or a listed connector, otherwise the run is a harness error',
-               'Portuguese, Italian and Dutch have no generator here (their compounding/elision rules were not encoded); they are '
-               'covered by C19 on the spec inputs only']
+               'Portuguese is generated below 1000 (+ round numbers), Italian and Dutch below 100: their compounding / elision rules '
+               'for larger numbers were not encoded; beyond that they are covered by C19 on the spec inputs only']
 MIN_NONTRIVIAL = 20000
 CFG = {}
 M = {}
 CLASSES_FULL = [0, 1, 9, 10, 11, 19, 20, 21, 99, 100, 101, 110, 111, 999]
-CARRIER = {'en-us': ('there are ', ' of them'), 'es-es': ('hay ', ' cosas'), 'fr-fr': ('il y a ', ' choses'),
+CARRIER = {'pt-br': ('tem ', ' coisas'), 'it-it': ('ci sono ', ' cose'), 'nl-nl': ('er zijn ', ' dingen'), 'en-us': ('there are ', ' of them'), 'es-es': ('hay ', ' cosas'), 'fr-fr': ('il y a ', ' choses'),
            'de-de': ('es gibt ', ' dinge'), 'zh-cn': ('我有', '个'), 'ja-jp': ('私は', 'です')}
 GEN = {'es-es': numerals.spanish, 'fr-fr': numerals.french, 'de-de': numerals.german, 'zh-cn': numerals.chinese,
-       'ja-jp': numerals.japanese}
+       'ja-jp': numerals.japanese, 'pt-br': numerals.portuguese, 'it-it': numerals.italian, 'nl-nl': numerals.dutch}
+# cultures whose generator covers only a prefix of the integers: (exhaustive below, extra round numbers)
+SMALL_RANGE = {'pt-br': (1000, [1000, 2000, 21000, 100000, 10 ** 6, 2 * 10 ** 6]), 'it-it': (100, [100, 1000]), 'nl-nl': (100, [100, 1000])}
 
 
 def structured(classes):
@@ -60,7 +62,8 @@ def worker_init():
         M[(cul, 'ordinal')] = r.get_ordinal_model(cul, False)
     # dialect guard: every word of the whitespace-separated generators must be known to the culture's own maps
     import importlib
-    for cul, modname, extra in (('es-es', 'spanish', {'y', 'un', 'veintiún'}), ('fr-fr', 'french', {'et', 'cents'}), ('de-de', 'german', set())):
+    for cul, modname, extra in (('es-es', 'spanish', {'y', 'un', 'veintiún'}), ('fr-fr', 'french', {'et', 'cents'}), ('de-de', 'german', set()),
+                                ('pt-br', 'portuguese', {'e'})):
         mod = importlib.import_module('recognizers_number.resources.%s_numeric' % modname)
         cls = [v for k, v in vars(mod).items() if k.endswith('Numeric') and isinstance(v, type)][0]
         known = set(cls.CardinalNumberMap) | set(getattr(cls, 'RoundNumberMap', {})) | extra
@@ -133,6 +136,8 @@ def body(ch):
     else:
         model = ch.pick('model', ('number', 'ordinal') if cul in ('zh-cn', 'ja-jp') else ('number',))
         ints = CFG['other']
+        if cul in SMALL_RANGE:
+            ints = list(range(SMALL_RANGE[cul][0])) + SMALL_RANGE[cul][1]
         ci = ch.pick_index('chunk', (len(ints) + CFG['chunk'] - 1) // CFG['chunk'])
         ch.shard()
         n = ch.pick('n', ints[ci * CFG['chunk']:(ci + 1) * CFG['chunk']])
